@@ -460,7 +460,7 @@ func dedupe(in []St) []St {
 func (x *Exec) block(b *cfg.Block, s St) {
 	x.curBlock, x.curKey = b.Index, s.Key()
 	states := []St{s}
-	if b.Kind == cfg.KindSelectAfterCase && len(b.Succs) == 0 {
+	if b.Kind == cfg.KindSelectAfterCase && len(b.Succs) == 0 && len(b.Nodes) == 0 {
 		// the last "no case chosen" block of a select without default is a
 		// dead end in go/cfg: a select blocks until one of its cases runs
 		return
